@@ -334,6 +334,7 @@ func runProperty(repo, verif, prop, tier, only string, workers int, debug, noRep
 	}
 	wg.Wait()
 	known := loadKnown(filepath.Join(verif, "known_findings.json"))
+	knownPrinted := map[*KnownEntry]bool{}
 	rp := &Replayer{repo: repo, verif: verif, prop: prop, L: L}
 	exit := 0
 	var inconcl []string
@@ -405,9 +406,13 @@ func runProperty(repo, verif, prop, tier, only string, workers int, debug, noRep
 			} else {
 				f.Confirmed = "not-replayed"
 			}
-			if k := known.match(prop, f); k != nil && (f.Confirmed == "confirmed" || f.Confirmed == "not-replayed") {
+			if k := known.match(prop, f); k != nil {
 				f.Known = true
-				fmt.Printf("KNOWN-FINDING: property=%s %s [harness=%s assertion=%s site=%s]\n", prop, k.What, f.Harness, f.Assertion, f.Site)
+				if !knownPrinted[k] {
+					knownPrinted[k] = true
+					fmt.Printf("KNOWN-FINDING: property=%s %s\n", prop, k.What)
+				}
+				fmt.Printf("  known: harness=%s assertion=%s site=%s replay=%s\n", f.Harness, f.Assertion, f.Site, f.Confirmed)
 				continue
 			}
 			switch {
